@@ -1211,9 +1211,10 @@ def run(tier):
     res.assumptions += ["sampled boundary networks and accelerators", "documented readings of the report's sentences as fixed in coq/model/Constraints.v "
                         "and tools/checks/c16.py doc_oracle (the reading most favourable to the code where a sentence is ambiguous)",
                         "strides and dilations are positive (Kernel asserts it) in the correspondence domain"]
-    if not b["ok"] and not new_violation[0]:
+    # a broken obligation / correspondence is always reported: the concrete inputs above may have another cause
+    if not b["ok"]:
         vlib.report_broken_build(res, b, None)
-    if (model_diffs or not okx) and not new_violation[0]:
+    if model_diffs or not okx:
         md = model_diffs[0] if model_diffs else {}
         viol({"correspondence": md.get("constraint", "extraction"), "kind": "model_vs_real"},
              {"first": md, "count": len(model_diffs), "extraction_ok": okx, "log": "" if okx else xlog[-1500:]},
